@@ -628,6 +628,35 @@ ben('b-dir-batch-index-loop', ['C02', 'C13'], (dirf,
             lookup_infos.push(lookup_info);
         }'''), 'explicit iter(), no clone of the info')
 
+ben('b-c07-windows', VERIFIERS, (hist,
+    '''    for count in 1..num_proofs {
+        // Make sure this proof is for a version 1 more than the previous one.
+        let prev_version = proof.update_proofs[count - 1].version;
+        let curr_version = proof.update_proofs[count].version;
+        if curr_version + 1 != prev_version {
+            return Err(VerificationError::HistoryProof(format!(
+                "Update proofs should be ordered consecutively and in decreasing order.
+                Error detected with version {} at index {}, followed by version {} at index {}",
+                prev_version,
+                count - 1,
+                curr_version,
+                count
+            )));
+        }
+    }''',
+    '''    for pair in proof.update_proofs.windows(2) {
+        // Make sure this proof is for a version 1 more than the previous one.
+        let prev_version = pair[0].version;
+        let curr_version = pair[1].version;
+        if curr_version + 1 != prev_version {
+            return Err(VerificationError::HistoryProof(format!(
+                "Update proofs should be ordered consecutively and in decreasing order.
+                Error detected with version {}, followed by version {}",
+                prev_version, curr_version
+            )));
+        }
+    }'''), 'index loop over adjacent pairs rewritten with windows(2)')
+
 out = os.path.join(os.path.dirname(os.path.abspath(__file__)), 'benign.json')
 json.dump({'benign': B}, open(out, 'w'), indent=1)
 print('%d benign variants -> %s' % (len(B), out))
